@@ -179,9 +179,9 @@ def gen_decls(rng, rich=False):
         for j in (decl or []):
             for m in ifaces[j]['methods']:
                 if rng.random() < 0.7:
-                    wanted.append((ifaces[j]['name'], m[0]))
+                    wanted.append((ifaces[j]['name'], m[0], m[1]))
         rng.shuffle(wanted)
-        for (iname, m) in wanted:
+        for (iname, m, sig_in) in wanted:
             if rng.random() < 0.5:
                 name, deco = 'dbus_' + m, None
             else:
@@ -190,7 +190,16 @@ def gen_decls(rng, rich=False):
                 continue
             used.add(name)
             fid[0] += 1
-            attrs.append({'name': name, 'fid': fid[0], 'deco': deco, 'wants': rng.random() < 0.4})
+            a = {'name': name, 'fid': fid[0], 'deco': deco, 'wants': rng.random() < 0.4}
+            arities = {n_complete_types(mm[1]) for ii in ifaces if ii['name'] == iname
+                       for mm in ii['methods'] if mm[0] == m}
+            if deco is not None and len(arities) == 1 and rng.random() < 0.6:
+                # exactly the declared arguments; under a name nothing else uses, so that it is
+                # only ever reached for (iname, m)
+                used.discard(name)
+                a['name'] = 'exact_%d' % fid[0]
+                a['arity'] = arities.pop()
+            attrs.append(a)
         for _ in range(rng.randrange(0, 4)):
             m = rng.choice(MEMBERS)
             style = rng.random()
@@ -361,8 +370,15 @@ def exc_text(spec):
     return spec['text']
 
 
-def make_func(rec, name, fid, deco, wants):
-    if wants:
+def make_func(rec, name, fid, deco, wants, arity=None):
+    """A recording user method.  `arity=None`: accepts any number of positional arguments;
+    otherwise exactly `arity` of them (`def f(self, a0, .., dbusCaller)` when it wants the caller)."""
+    if arity is not None:
+        params = ['self'] + ['a%d' % i for i in range(arity)] + (['dbusCaller'] if wants else [])
+        src = 'lambda %s: _rec.invoked(_fid, [%s], %s)' % (
+            ', '.join(params), ', '.join('a%d' % i for i in range(arity)), 'dbusCaller' if wants else '_M')
+        f = eval(src, {'_rec': rec, '_fid': fid, '_M': _M})
+    elif wants:
         def f(self, a0=_M, a1=_M, a2=_M, a3=_M, dbusCaller=_M):
             return rec.invoked(fid, [a for a in (a0, a1, a2, a3) if a is not _M], dbusCaller)
     else:
@@ -403,7 +419,7 @@ class Built:
             if c['ifaces'] is not None:
                 ns['dbusInterfaces'] = [self.ifaces[j] for j in c['ifaces']]
             for a in c['attrs']:
-                ns[a['name']] = make_func(self.rec, a['name'], a['fid'], a['deco'], a['wants'])
+                ns[a['name']] = make_func(self.rec, a['name'], a['fid'], a['deco'], a['wants'], a.get('arity'))
             self.classes.append(type('K%d' % k, tuple(bases) or (object,), ns))
         self.objects = []
         self.exported = {}
@@ -642,7 +658,8 @@ LOOKUP_ERRORS = {'unknown-object': 'org.freedesktop.DBus.Error.UnknownObject',
 class CallRecord:
     def __init__(self, k, op, msg, exp):
         self.k, self.op, self.exp = k, op, exp
-        self.serial, self.sender, self.expect_reply = msg.serial, msg.sender, msg.expectReply
+        # what the CALLER put into the message (the parsed fields are the implementation's business)
+        self.serial, self.sender, self.expect_reply = op['serial'], op['sender'], op['expectReply']
         self.decoded = copy.deepcopy(msg.body) if msg.body is not None else []
         self.events = []            # everything logged while this call / its resolutions were handled
         self.outcome = None         # outcome spec used by the invoked function
@@ -935,6 +952,8 @@ class Scenario:
                     self.problem('missing-reply', 'the returned Deferred fired (%s) and no reply was sent' % res['kind'], cr,
                                  self.impl_lines[-1], 'exactly one reply')
                 return
+            if cr.exp['v'] != 'run':
+                return          # user code ran although it should not have: already reported
             if res['kind'] == 'value':
                 self.check_value_reply(cr, replies_now[0], res['_value'])
             else:
@@ -1064,13 +1083,13 @@ GRID_DECLS = {
     'classes': [
         {'bases': ['DBusObject'], 'ifaces': [0, 1],
          'attrs': [{'name': 'dbus_one', 'fid': 1, 'deco': None, 'wants': False},
-                   {'name': 'impl_two', 'fid': 2, 'deco': ['org.a', 'two'], 'wants': True},
+                   {'name': 'impl_two', 'fid': 2, 'deco': ['org.a', 'two'], 'wants': True, 'arity': 0},
                    {'name': 'impl_two_b', 'fid': 3, 'deco': ['org.a', 'two'], 'wants': False},
                    {'name': 'dbus_three', 'fid': 4, 'deco': ['org.a', 'three'], 'wants': False},
                    {'name': 'handler', 'fid': 5, 'deco': ['org.b', 'three'], 'wants': True}]},
         {'bases': [0], 'ifaces': [3, 2],
          'attrs': [{'name': 'handler', 'fid': 6, 'deco': None, 'wants': False},
-                   {'name': 'impl_one', 'fid': 7, 'deco': ['org.b', 'one'], 'wants': True},
+                   {'name': 'impl_one', 'fid': 7, 'deco': ['org.b', 'one'], 'wants': True, 'arity': 2},
                    {'name': 'dbus_Ping', 'fid': 8, 'deco': None, 'wants': True},
                    {'name': 'impl_c_two', 'fid': 9, 'deco': ['com.c', 'two'], 'wants': False}]},
     ],
